@@ -417,7 +417,7 @@ func TestVerifRegistry(t *testing.T) {
 //	M h            the source emits watermark h; settle; report what the newest target incarnation received
 //	A h            the newest target incarnation acknowledges h; settle; report what the source received
 //	END
-func vgSettle() { time.Sleep(80 * time.Millisecond) }
+func vgSettle() { time.Sleep(120 * time.Millisecond) }
 
 func vgRunStreams(t *testing.T, lines []string, out func(string)) {
 	loggers := logging.NewLoggerProvider(log.NewNoopLogger(), config.NewMockConfigProvider(config.S2SProxyConfig{}))
